@@ -24,6 +24,9 @@ func init() { core.Register(c18{}) }
 
 func (c18) ID() string { return "C18" }
 
+// EvalFeatures names the counters of judged executions.
+func (c18) EvalFeatures() []string { return []string{"runners"} }
+
 func (c18) Race() bool { return true }
 
 func (c18) Cases(tier string) int {
